@@ -69,6 +69,7 @@ ResetState ==
 Apply(ln) ==
     CASE ln.ev = "Reset"       -> ResetState
       [] ln.ev = "Store"       -> Store(LVal(ln.a.v))
+      [] ln.ev = "StoreClosed" -> StoreWhileClosed(LVal(ln.a.v), ln.s.err = "")     \* the logged reply decides
       [] ln.ev = "Ack"         -> Ack(LId(ln.a.id))
       [] ln.ev = "StoreAcked"  -> StoreAcked(Trace[ResetLine(l)].a.ids, ln.a.vs)
       [] ln.ev = "Get"         -> Get(LId(ln.a.id))
